@@ -2,6 +2,7 @@
 mod common;
 mod acks;
 mod delivery;
+mod durability;
 mod fragdirect;
 mod oversleep;
 
@@ -15,6 +16,7 @@ fn main() {
     let rep = match scenario.as_str() {
         "c01" => delivery::run(&shard, "C01", delivery::Mode::Reliable),
         "c03" => acks::run(&shard),
+        "c04" => durability::run(&shard),
         "c31" => oversleep::run(&shard),
         "c02" => delivery::run(&shard, "C02", delivery::Mode::BestEffort),
         "c05" => {
